@@ -127,10 +127,29 @@ Cand(T, env, f) ==
                          VArr(<<VNum("1")>>), VObj(<<>>), VNull}
     [] T.t = "ref"   -> IF f = 0 THEN {VNull, VObj(<<>>), VArr(<<>>), VStr("a"), VNum("1")}
                         ELSE Cand(Lookup(env, T.n), env, f - 1)
+    [] T.t = "deco"  -> Cand(T.a, env, f)
+    [] T.t = "app"   -> IF f = 0 THEN {VNull, VObj(<<>>), VArr(<<>>), VStr("a"), VNum("1")}
+                        ELSE Cand(Instantiate(env, T.n, T.args), env, f - 1)
     [] T.t = "union" -> UNION {Take(Cand(T.ms[i], env, f), 12) : i \in DOMAIN T.ms}
     [] T.t = "both"  -> Cand(T.a, env, f) \cup Cand(T.b, env, f)
     [] T.t = "inter" -> UNION {Take(Cand(T.ms[i], env, f), 10) : i \in DOMAIN T.ms}
                         \cup UNION {Take(Cand(b, env, f), 16) : b \in Take(Branches(T, env), 3)}
+
+\* one pool for all programs (C13 separation, C08/C09/C15 comparisons)
+CommonPool ==
+  AtomPool \cup
+  { VNum("2"), VStr("x"), VStr("y"), VStr("x1"), VStr("ab"), VArr(<<VNum("1")>>), VArr(<<VStr("a")>>), VArr(<<VStr("a"), VNum("1")>>),
+    VArr(<<VNum("1"), VStr("a")>>), VArr(<<VNull>>), VArr(<<VArr(<<>>)>>), VArr(<<VObj(<<>>)>>),
+    VObj(<<P("a", VStr("a"))>>), VObj(<<P("a", VNum("1"))>>), VObj(<<P("a", VNull)>>), VObj(<<P("b", VNum("1"))>>),
+    VObj(<<P("a", VStr("a")), P("b", VNum("1"))>>), VObj(<<P("a", VNum("1")), P("b", VStr("a"))>>),
+    VObj(<<P("a", VStr("a")), P("zz", VNum("1"))>>), VObj(<<P("a", VObj(<<P("a", VStr("a"))>>))>>),
+    VObj(<<P("a", VArr(<<>>))>>), VObj(<<P("k", VStr("x")), P("a", VStr("a"))>>), VObj(<<P("k", VStr("y")), P("b", VNum("1"))>>),
+    VObj(<<P("k", VStr("x")), P("b", VNum("1"))>>), VObj(<<P("k", VStr("z"))>>), VObj(<<P("k", VStr("constructor"))>>),
+    VObj(<<P("v", VNum("1"))>>), VObj(<<P("v", VStr("a")), P("next", VObj(<<P("v", VStr("a"))>>))>>),
+    VObj(<<P("v", VStr("a")), P("next", VObj(<<P("v", VNum("1"))>>))>>),
+    VObj(<<P("x1", VNum("1"))>>), VObj(<<P("q", VStr("a"))>>),
+    VMap(<<E(VStr("a"), VNum("1"))>>), VMap(<<E(VNum("1"), VStr("a"))>>), VSet(<<VNum("1")>>), VSet(<<VStr("a")>>),
+    VTa("Uint8Array", <<1>>), VTa("Float64Array", <<1>>), VStr("true"), VStr("1px"), VStr("a.b"), VStr("a-b"), VStr("abc"), VStr("ac") }
 
 Probe(T, env, fuel, cap) == Take(Cand(T, env, fuel), cap) \cup AtomPool
 =============================================================================
